@@ -102,6 +102,32 @@ func (tr *Tr) evalCall(env *CEnv, x *CCall) (Value, types.Type) {
 			return tr.evalCnt(env, x), nil
 		case "cntsofar":
 			return tr.evalCntSoFar(env, x), nil
+		case "cnt_mono":
+			// cnt_mono(m, k :: P, k :: Q): the engine axiom instance A-count-mono as a formula:
+			//   (forall k in m: P(k) ==> Q(k)) ==> cnt(m,P) <= cnt(m,Q)
+			// Only usable in "after ... assume" clauses (checked syntactically by the contract loader).
+			c1 := tr.evalCnt(env, &CCall{Fun: &CIdent{"cnt"}, Args: []CExpr{x.Args[0], x.Args[1]}}).(Sc).T
+			c2 := tr.evalCnt(env, &CCall{Fun: &CIdent{"cnt"}, Args: []CExpr{x.Args[0], x.Args[2]}}).(Sc).T
+			mv, mt0 := tr.evalC(env, x.Args[0])
+			mt := mt0.Underlying().(*types.Map)
+			m := tr.asSc(tr.rval(env, mv, mt0), mt0).T
+			dom := sSel(tr.mapDom(env.st, mt), m)
+			l1, l2 := x.Args[1].(*CLambda), x.Args[2].(*CLambda)
+			tr.fresh++
+			kv := smtName(fmt.Sprintf("k?%d", tr.fresh))
+			b1 := tr.evalBool(env.with(l1.Var, EV{V: Sc{T: kv}, T: mt.Key()}), l1.Body)
+			b2 := tr.evalBool(env.with(l2.Var, EV{V: Sc{T: kv}, T: mt.Key()}), l2.Body)
+			tr.assumptions["A-count-mono: if P implies Q pointwise on a map's keys then #P <= #Q (engine axiom about finite counts)"] = true
+			inDom := sSel(dom, kv)
+			if lo, hi, ok := intRange(mt.Key()); ok {
+				inDom = sAnd(inDom, sLe(lo, kv), sLe(kv, hi)) // keys of the map are values of the key type
+			}
+			return boolV(fmt.Sprintf("(=> (forall ((%s Int)) (=> %s (=> %s %s))) (<= %s %s))", kv, inDom, b1, b2, c1, c2)), bt
+		case "asiface":
+			// asiface(x, "pkg.Type"): the interface value obtained by converting x (of that dynamic type) to an interface
+			v, t := tr.evalC(env, x.Args[0])
+			name := x.Args[1].(*CStr).Val
+			return If{Tag: fmt.Sprint(tr.g.typeTagByName(name)), Val: tr.asSc(tr.rval(env, v, t), t).T}, nil
 		case "seen":
 			if env.loop == nil || env.loop.enum == nil {
 				panic(subsetErr("seen() outside a range-over-map loop invariant"))
@@ -122,6 +148,11 @@ func (tr *Tr) evalCall(env *CEnv, x *CCall) (Value, types.Type) {
 				}
 			}
 			panic(subsetErr("entry(): no parameter " + pid.Name))
+		case "key":
+			if env.loop == nil || env.loop.enum == nil {
+				panic(subsetErr("key(i) outside a map-iteration invariant"))
+			}
+			return Sc{T: "(" + env.loop.enum.pick + " " + tr.evalInt(env, x.Args[0]) + ")"}, env.loop.enum.mtyp.Key()
 		case "fresh":
 			v, t := tr.evalC(env, x.Args[0])
 			r := tr.refOf(env, v, t)
@@ -339,6 +370,19 @@ func (tr *Tr) evalSpec(env *CEnv, sd *SpecDef, argEs []CExpr) (Value, types.Type
 				sig += "Int "
 			}
 		}
+		// declared heap dependencies: the current versions of those heap variables are arguments of the abstract function
+		if len(sd.Reads) > 0 {
+			reg := tr.g.heapRegistry()
+			for _, hn := range sortedKeys(reg) {
+				for _, rd := range sd.Reads {
+					if hn == rd || strings.HasPrefix(hn, rd+"#") || strings.HasPrefix(hn, rd+".") {
+						ts = append(ts, tr.heapVar(env.st, hn, reg[hn]))
+						sig += reg[hn] + " "
+						break
+					}
+				}
+			}
+		}
 		rt := tr.resolveCType(penv, sd.Ret)
 		rs := "Int"
 		if kindOf(rt) == kBool {
@@ -386,11 +430,23 @@ func (tr *Tr) evalSpec(env *CEnv, sd *SpecDef, argEs []CExpr) (Value, types.Type
 		penv.vars[sd.Params[i].Name] = EV{V: v, T: t}
 	}
 	v, t := tr.evalC(penv, sd.Body)
+	tr.pendingOpaque = nil
 	if sd.Opaque {
 		v = tr.opaqueAtom(sd, v)
 	}
+	pend := tr.pendingOpaque
+	tr.pendingOpaque = nil
 	for k := len(subst) - 1; k >= 0; k-- {
 		v = substValue(v, subst[k][0], subst[k][1])
+		if pend != nil {
+			pend.atom = strings.ReplaceAll(pend.atom, subst[k][0], subst[k][1])
+			for i := range pend.args {
+				pend.args[i] = strings.ReplaceAll(pend.args[i], subst[k][0], subst[k][1])
+			}
+		}
+	}
+	if pend != nil {
+		tr.relateOpaque(pend.sd, pend.fn, pend.args, pend.atom, pend.bool_)
 	}
 	if sd.Ret.Name != "" {
 		rt := tr.resolveCType(penv, sd.Ret)
@@ -435,7 +491,9 @@ func (tr *Tr) evalCnt(env *CEnv, x *CCall) Value {
 	dom := sSel(tr.mapDom(env.st, mt), m)
 	n := sSel(tr.mapLen(env.st, mt), m)
 	body := tr.evalBool(env.with(lam.Var, EV{V: Sc{T: cntBound}, T: mt.Key()}), lam.Body)
-	return Sc{T: tr.cntSym(dom, n, body)}
+	domA, bodyA := dom, body
+	tr.abstractMapRef(m, &domA, &bodyA)
+	return Sc{T: tr.cntSym(domA, n, bodyA)}
 }
 
 var boundVarRe = regexp.MustCompile(`\|[A-Za-z_0-9]+\?[0-9]+\|`)
@@ -443,9 +501,25 @@ var boundVarRe = regexp.MustCompile(`\|[A-Za-z_0-9]+\?[0-9]+\|`)
 // cntParams lists, in order of first occurrence, the parameters of a counting predicate: quantifier-bound variables /
 // spec placeholders (contain '?') and declared scalar constants. Arrays and function symbols stay part of the key.
 type cntParam struct {
-	tok   string
-	bound bool
-	sort  string
+	tok    string
+	bound  bool
+	sort   string
+	actual string // term passed as argument (differs from tok for the abstracted map reference)
+}
+
+const mrefTok = "|mref#|"
+
+// abstractMapRef replaces a compound map-reference term by a placeholder in the given strings, so that counting
+// symbols are functions of the map reference (semantically equal references then give equal counts by congruence).
+func (tr *Tr) abstractMapRef(m string, strs ...*string) {
+	tr.curMref = ""
+	if !strings.HasPrefix(m, "(") {
+		return
+	}
+	tr.curMref = m
+	for _, s := range strs {
+		*s = strings.ReplaceAll(*s, m, mrefTok)
+	}
 }
 
 var quotedSymRe = regexp.MustCompile(`\|[^|]+\|`)
@@ -459,15 +533,19 @@ func (tr *Tr) cntParams(terms ...string) []cntParam {
 				continue
 			}
 			seen[m] = true
+			if m == mrefTok {
+				out = append(out, cntParam{m, false, "Int", tr.curMref})
+				continue
+			}
 			if strings.Contains(m, "?") {
-				out = append(out, cntParam{m, true, "Int"})
+				out = append(out, cntParam{m, true, "Int", m})
 				continue
 			}
 			switch tr.sc.sigs[m] {
 			case "() Int":
-				out = append(out, cntParam{m, false, "Int"})
+				out = append(out, cntParam{m, false, "Int", m})
 			case "() Bool":
-				out = append(out, cntParam{m, false, "Bool"})
+				out = append(out, cntParam{m, false, "Bool", m})
 			}
 		}
 	}
@@ -517,7 +595,7 @@ func (tr *Tr) cntSym(dom, n, body string) string {
 	}
 	var as []string
 	for _, p := range ps {
-		as = append(as, p.tok)
+		as = append(as, p.actual)
 	}
 	app := "(" + s + " " + strings.Join(as, " ") + ")"
 	if len(boundVarsOf(app)) == 0 {
@@ -540,14 +618,17 @@ func (tr *Tr) evalCntSoFar(env *CEnv, x *CCall) Value {
 	if strings.Contains(e.dom, "?") {
 		panic(subsetErr("cntsofar over a map that depends on a bound variable"))
 	}
-	total := tr.cntSym(e.dom, e.n, body)
-	ps := tr.cntParams(e.dom, body)
-	pcKey := fmt.Sprintf("pc|%d|%s", e.id, canon(body, ps))
+	domA, bodyA := e.dom, body
+	tr.abstractMapRef(e.mref, &domA, &bodyA)
+	total := tr.cntSym(domA, e.n, bodyA)
+	ps := tr.cntParams(domA, bodyA)
+	body = strings.ReplaceAll(bodyA, mrefTok, e.mref)
+	pcKey := fmt.Sprintf("pc|%d|%s", e.id, canon(bodyA, ps))
 	pc, ok := tr.cntSyms[pcKey]
 	var qv string
 	var args []string
 	for _, p := range ps {
-		args = append(args, p.tok)
+		args = append(args, p.actual)
 		if p.bound {
 			qv += " (" + p.tok + " " + p.sort + ")"
 		}
@@ -665,6 +746,7 @@ func (tr *Tr) opaqueAtom(sd *SpecDef, v Value) Value {
 	if len(args) > 0 {
 		atom = "(" + fn + " " + strings.Join(args, " ") + ")"
 	}
+	tr.pendingOpaque = &opaqueInst{args: append([]string(nil), args...), atom: atom, sd: sd, bool_: sc.Bool, fn: fn}
 	if tr.revealed[sd.Name] {
 		generic := atom
 		for i, p := range params {
@@ -689,3 +771,65 @@ func (tr *Tr) opaqueAtom(sd *SpecDef, v Value) Value {
 
 var qidRe = regexp.MustCompile(`:qid Q[0-9]+_`)
 var binderNumRe = regexp.MustCompile(`\?[0-9]+\|`)
+
+// relateOpaque implements stability of opaque specs under allocation: if an earlier application of the same opaque
+// function has the same scalar arguments and each heap argument of the new application extends the earlier one only by
+// writes to objects allocated later (store chains at fresh references, allocation-only effects of callees), then the
+// earlier application implies (equals, for non-Boolean specs) the new one. This is justified by the lemma stable.<name>,
+// which the engine proves separately with the definition revealed (obligation kind "stable").
+func (tr *Tr) relateOpaque(sd *SpecDef, fn string, args []string, atom string, isBool bool) {
+	if strings.Contains(atom, "?") || tr.lemmaProof {
+		return
+	}
+	insts := tr.opaqueAtoms[fn]
+	for _, old := range insts {
+		if old.atom == atom {
+			return
+		}
+	}
+	for _, old := range insts {
+		if len(old.args) != len(args) {
+			continue
+		}
+		related, differs := true, false
+		var topConds []string
+		for i := range args {
+			if args[i] == old.args[i] {
+				continue
+			}
+			differs = true
+			if strings.HasPrefix(args[i], "|top") && strings.HasPrefix(old.args[i], "|top") {
+				// allocation counters: the stability lemma is proved for any later counter value
+				topConds = append(topConds, sLe(old.args[i], args[i]))
+				continue
+			}
+			// is old.args[i] an ancestor of args[i] in the allocation-extension lineage?
+			cur, ok := args[i], false
+			for hops := 0; hops < 200; hops++ {
+				p, has := tr.allocParent[cur]
+				if !has {
+					break
+				}
+				if p == old.args[i] {
+					ok = true
+					break
+				}
+				cur = p
+			}
+			if !ok {
+				related = false
+				break
+			}
+		}
+		if related && differs {
+			if isBool {
+				tr.sc.fact(sImp(sAnd(append(topConds, old.atom)...), atom))
+			} else {
+				tr.sc.fact(sImp(sAnd(topConds...), sEq(old.atom, atom)))
+			}
+			tr.stableUsed[sd.Name] = true
+			tr.assumptions["stability of opaque spec "+sd.Name+" under allocation (lemma stable."+sd.Name+", proved by the engine)"] = true
+		}
+	}
+	tr.opaqueAtoms[fn] = append(insts, opaqueInst{args: args, atom: atom, sd: sd, bool_: isBool})
+}
